@@ -458,4 +458,121 @@ def hasPercolatorScore (runss : List (List Run)) : Prop :=
 def modsOk (pep : Str) (ms : List Mod) : Prop :=
   ms.Pairwise (fun a b => a.pos ≤ b.pos) ∧ ∀ m ∈ ms, m.pos ≤ pep.length
 
+/-! ## Options of `read_pepxml`: `decoy_prefix` default, `exclude_features`,
+`open_modification_bin_size`, and the feature list handed to `LinearPsmDataset`
+
+Added after the default path above (which stays as it is): `readPepxmlX` follows
+the same data flow with the two options threaded through; `readPepxml` is the
+special case `excl = []`, `bin = none` (proved in `Props/C20Opts.lean`). -/
+
+/-- default of the `decoy_prefix` parameter.  src: mokapot/parsers/pepxml.py:22 -/
+def defaultPrefix : Str := ['d', 'e', 'c', 'o', 'y', '_']
+
+/-- the nine non-feature columns.  src: mokapot/parsers/pepxml.py:109-119 -/
+def fixedCols : List String :=
+  ["ms_data_file", "scan", "ret_time", "label", "exp_mass", "calc_mass", "peptide", "proteins", "charge"]
+
+/-- `nonfeat_cols += exclude_features`.  src: mokapot/parsers/pepxml.py:121-126 -/
+def nonfeatCols (excl : List String) : List String := fixedCols ++ excl
+
+/-- `c not in nonfeat_cols` — equivalently (line 334) `col.name in features` for a column of the frame.
+src: mokapot/parsers/pepxml.py:127, 334 -/
+def isFeat (excl : List String) (c : String) : Bool := !(nonfeatCols excl).contains c
+
+/-- a cell of the returned frame when a column may be left untouched -/
+inductive XV where
+  | fv (v : FV)              -- float cell made by the post-processing
+  | cell (c : Option Cell)   -- untouched dict value: `int`, score text as written, or absent (NaN)
+  | flag (b : Bool)          -- untouched `get_dummies` cell (bool dtype)
+  deriving Repr
+
+/-- a column of the dict-made frame as `_log_features` receives it; `num_matched_peptides` has
+already been replaced by its log10.  src: mokapot/parsers/pepxml.py:99-100 -/
+def rawFeat (rows : List Row) (k : String) : List XV :=
+  if k = "num_matched_peptides" then (rawColumn rows k).map (fun c => XV.fv (nmCell c))
+  else rows.map (fun r => XV.cell (r.feats.lookup k))
+
+/-- `_log_features(col, features)`: `if col.name not in features: return col`.
+src: mokapot/parsers/pepxml.py:128, 334-335 -/
+def featColX (excl : List String) (rows : List Row) (k : String) : String × List XV :=
+  (k, if isFeat excl k then (featCol rows k).2.map XV.fv else rawFeat rows k)
+
+/-- the float columns `mass_diff` / `abs_mz_diff`.  src: mokapot/parsers/pepxml.py:82, 94-96, 128 -/
+def massColX (excl : List String) (name : String) (vals : List Rat) : String × List XV :=
+  (name, if isFeat excl name then (logFeature (vals.map (fun v => some (reprNum v)))).map XV.fv
+         else vals.map (fun v => XV.fv (FV.plain v)))
+
+/-- a `get_dummies` column: bool unless it is a feature (line 336-337: `astype(float)`).
+src: mokapot/parsers/pepxml.py:103-105, 334-337 -/
+def chargeColX (excl : List String) (rows : List Row) (z : Int) : String × List XV :=
+  ("charge_" ++ toString z,
+   if isFeat excl ("charge_" ++ toString z) then (chargeCol rows z).2.map XV.fv
+   else rows.map (fun r => XV.flag (decide (r.charge = z))))
+
+/-! ### open-modification binning -/
+
+/-- `bins[i]` of `np.arange(lo, hi + b, step=b)` -/
+def binStart (lo b : Rat) (i : Int) : Rat := lo + i * b
+
+/-- `len(np.arange(lo, hi + b, step=b))` = ⌈(hi + b − lo) / b⌉ -/
+def nBins (lo hi b : Rat) : Int := ((hi + b - lo) / b).ceil
+
+/-- `np.digitize(md, bins) - 1` for increasing `bins`: the last `i` with `bins[i] ≤ md` -/
+def binIdx (lo b md : Rat) : Int := ((md - lo) / b).floor
+
+/-- round half to even (`np.rint`) -/
+def roundHalfEven (x : Rat) : Int :=
+  if x - x.floor < 1 / 2 then x.floor
+  else if 1 / 2 < x - x.floor then x.floor + 1
+  else if x.floor % 2 = 0 then x.floor else x.floor + 1
+
+/-- `.round(4)` -/
+def round4 (x : Rat) : Rat := (roundHalfEven (x * 10000) : Rat) / 10000
+
+/-- `(bins[bin_idx] + b / 2).round(4)` for one PSM.  src: mokapot/parsers/pepxml.py:84-90 -/
+def openModTag (b : Rat) (mds : List Rat) (md : Rat) : Rat :=
+  round4 (binStart (minRat mds) b (binIdx (minRat mds) b md) + b / 2)
+
+/-- a row of the returned frame: `tag = some t` means the peptide column holds
+`row.peptide + "[" + str(t) + "]"`.  src: mokapot/parsers/pepxml.py:91 -/
+structure ORow where
+  row : Row
+  tag : Option Rat
+  deriving Repr
+
+def tagRows (bin : Option Rat) (rows : List Row) : List ORow :=
+  rows.map (fun r => { row := r, tag := bin.map (fun b => openModTag b (rows.map massDiff) (massDiff r)) })
+
+structure TableX where
+  rows : List ORow
+  feats : List (String × List XV)
+  featCols : List String      -- `feat_cols`, the `feature_columns` of the `LinearPsmDataset` (to_df=False)
+
+/-- all columns of the frame after line 105, in order: the dict keys, `mass_diff`, `abs_mz_diff`, dummies -/
+def featNames (fr : Frame) : List String :=
+  fr.cols ++ (["mass_diff", "abs_mz_diff"]
+    ++ (chargeLevels (fr.rows.map (·.charge))).map (fun z => "charge_" ++ toString z))
+
+/-- src: mokapot/parsers/pepxml.py:81-147 -/
+def postProcessX (excl : List String) (bin : Option Rat) (fr : Frame) : TableX :=
+  { rows := tagRows bin fr.rows,
+    feats := fr.cols.map (featColX excl fr.rows) ++
+      ([massColX excl "mass_diff" (fr.rows.map massDiff),
+        massColX excl "abs_mz_diff" (fr.rows.map absMzDiff)] ++
+       (chargeLevels (fr.rows.map (·.charge))).map (chargeColX excl fr.rows)),
+    featCols := (fixedCols ++ featNames fr).filter (isFeat excl) }
+
+def checkFramesX (excl : List String) (bin : Option Rat) (frs : List Frame) : Except Err TableX :=
+  if frs.isEmpty then .error .noFiles
+  else if illegalCols.any (fun c => (concatFrames frs).cols.contains c) then .error .percolator
+  else .ok (postProcessX excl bin (concatFrames frs))
+
+/-- `read_pepxml(files, decoy_prefix, exclude_features, open_modification_bin_size)` for a bin
+size `> 0` (other sizes are outside the model).  src: mokapot/parsers/pepxml.py:20-149 -/
+def readPepxmlX (pfx : Str) (excl : List String) (bin : Option Rat) (files : List File) : Except Err TableX :=
+  (parseFiles pfx files).bind (checkFramesX excl bin)
+
+/-- embedding of the default table's cells -/
+def liftCol (kc : String × List FV) : String × List XV := (kc.1, kc.2.map XV.fv)
+
 end Mk.Pepxml
